@@ -1,0 +1,26 @@
+package crypto
+
+import (
+	"encoding/binary"
+
+	"github.com/cossacklabs/acra/acrablock"
+	"github.com/cossacklabs/acra/acrastruct"
+)
+
+// IsWholeEnvelope reports whether data is exactly one crypto envelope - a serialized container, a bare
+// AcraStruct or a bare AcraBlock - with nothing after it. The signature matchers accept data that only
+// begins with an envelope; encryptors must not treat such data as "already encrypted on application
+// side", otherwise the bytes after the envelope are stored in plaintext.
+func IsWholeEnvelope(data []byte) bool {
+	if _, err := validateSerializedContainer(data); err == nil {
+		length := binary.LittleEndian.Uint64(data[len(TagBegin) : len(TagBegin)+SerializedContainerLengthSize])
+		return length == uint64(len(data))
+	}
+	if acrastruct.ValidateAcraStructLength(data) == nil {
+		return true
+	}
+	if n, _, err := acrablock.ExtractAcraBlockFromData(data); err == nil {
+		return n == len(data)
+	}
+	return false
+}
